@@ -89,6 +89,7 @@ class Result:
         self.canary_ok = False
         self.raw_tail = ""
         self.cex = {}                    # obligation id -> counterexample values (kani)
+        self.assumption_sites = []
 
 
 def run_verus(unit, cfg, text, scratch, rlimit=None, seed=None, extra=None):
@@ -117,6 +118,13 @@ def run_verus(unit, cfg, text, scratch, rlimit=None, seed=None, extra=None):
         return r
     r.wall_s = time.time() - t0
     lines = text.split("\n")
+    # mechanical scan: every construct that is an assumption rather than a proof, reported in the evidence
+    r.assumption_sites = []
+    for i, l in enumerate(lines, 1):
+        for kw in ("assume(", "admit(", "#[verifier::external_body]", "assume_specification", "exec_allows_no_decreases_clause", "uninterp spec fn"):
+            if kw in l and not l.strip().startswith("//"):
+                nxt = lines[i] if kw == "#[verifier::external_body]" and i < len(lines) else l
+                r.assumption_sites.append("%s: %s" % (kw.strip("#[]():"), norm_ws(nxt)[:110]))
     tagmap = {}
     for (ln, props, name, clause) in tags_in(text):
         tagmap.setdefault(ln, []).append((props, name, clause))
